@@ -3,6 +3,7 @@ from __future__ import annotations
 
 import math
 import random
+import warnings
 
 import numpy as np
 
@@ -252,6 +253,86 @@ def one_case(ctx, index: int, rng: random.Random):
                      "weights": None if wts is None else list(wts)[:6], "missed": float(h.missed), "total": float(h.total)})
 
 
+def dtype_case(ctx, index: int, rng: random.Random):
+    """A content type given at construction: every stored number is the exact sum (rounded into a float type), and sums that do not
+    fit an integer type are refused or widened - never wrapped around; the missed weight is never negative."""
+    import physt
+
+    rec = ctx.rec
+    rec.mon("C02.h.post")
+    d = rng.choice([2, 2, 3])
+    dt = rng.choice(["int16", "int32", "float32", "int16", "float64", "int64"])
+    shape = [rng.randint(1, 3) for _ in range(d)]
+    edges = [np.array(gen.edges(rng, k)) for k in shape]
+    crowd = rng.random() < 0.4 and dt == "int16"
+    n = rng.randint(33000, 70000) if crowd else rng.randint(1, 60)
+    cols = []
+    for e in edges:
+        if crowd:
+            inside = rng.random() < 0.7
+            x = float(e[0] + (e[1] - e[0]) / 4) if inside else float(e[-1] + 1.0)
+            cols.append(np.full(n, x))
+        else:
+            cols.append(np.asarray(gen.data_for_bins(rng, gen.pairs_from_edges(list(e)), n, nan_ok=False)))
+    rows = np.stack(cols, axis=1)
+    wkind = rng.choice(["none", "int", "int_big", "dyadic"]) if not crowd else "none"
+    if np.dtype(dt).kind in "iu" and wkind == "dyadic":
+        wkind = "int"
+    wts = None
+    if wkind == "int":
+        wts = np.asarray([rng.randint(0, 9) for _ in range(n)])
+    elif wkind == "int_big":
+        wts = np.asarray([rng.choice([1, 150, 300, 20000, 40000]) for _ in range(n)])
+    elif wkind == "dyadic":
+        wts = np.asarray([rng.randint(0, 64) / 8 * rng.choice([1, 1, 2.0**20]) for _ in range(n)])
+    if dt in ("float64", "int64") and not crowd:
+        # integer weights whose squares leave 64-bit integers (the contents stay far below 2**53)
+        wkind, n = "int_huge", min(n, 3)
+        rows = rows[:n]
+        wts = np.asarray([rng.choice([2**32, 5_000_000_000, 4_000_000_000]) for _ in range(n)], dtype=np.int64)
+    kw = {} if wts is None else {"weights": wts}
+    bins = [np.stack([e[:-1], e[1:]], axis=1) for e in edges]
+    right_closed = [True] * d
+
+    _, f, e2, missed, total, _, _ = model.bin_nd(bins, right_closed, rows if not crowd else rows[:1], None if wts is None else (wts if not crowd else wts[:1]))
+    if crowd:
+        # n equal rows: n times the first one
+        f = {k: v * n for k, v in f.items()}
+        e2 = {k: v * n for k, v in e2.items()}
+        missed = missed * n
+    biggest = max([float(v) for v in f.values()] + [float(v) for v in e2.values()] + [float(missed), 0.0])
+    fits = np.dtype(dt).kind == "f" or biggest <= float(np.iinfo(dt).max)
+    desc = {"dtype": dt, "d": d, "n": n, "weights": wkind, "biggest": biggest, "crowd": crowd, "edges": [x.tolist() for x in edges]}
+    try:
+        with warnings.catch_warnings():
+            warnings.simplefilter("ignore")
+            h = physt.h(rows, [x.copy() for x in edges], dtype=dt, **kw)
+    except (OverflowError, ValueError) as ex:
+        if fits:
+            rec.fail(monitor="C02.h.post", op="h(dtype=)", symptom=f"construction with a content type that holds every sum refused: {type(ex).__name__}", diff=["raised"], detail={**desc, "error": str(ex)[:160]})
+        rec.case(desc, not fits, cls=f"dtype/{dt}/{wkind}/refused")
+        return
+    except Exception as ex:
+        rec.fail(monitor="C02.h.post", op="h(dtype=)", symptom=f"construction raised {type(ex).__name__}", diff=["raised"], detail={**desc, "error": str(ex)[:160]})
+        return
+    with attach.quiet():
+        if crowd:
+            res = np.dtype(h.dtype)
+            want = model.dense(tuple(shape), f)
+            if res.kind in "iu" and biggest > float(np.iinfo(res).max):
+                rec.fail(monitor="C02.h.post", op="h(dtype=)", symptom="sums that do not fit the integer content type were stored in it (wrapped around) instead of being refused or widened",
+                         diff=["frequencies", "missed"], detail={**desc, "got": np.asarray(h.frequencies).ravel()[:6].tolist(), "missed": float(h.missed)})
+            elif not np.array_equal(np.asarray(h.frequencies, dtype=float), want) or float(h.missed) != float(missed):
+                rec.fail(monitor="C02.h.post", op="h(dtype=)", symptom="cell contents / missed differ from the weight of the rows", diff=["frequencies", "missed"],
+                         detail={**desc, "got": np.asarray(h.frequencies).ravel()[:6].tolist(), "missed": float(h.missed), "expected_missed": float(missed)})
+        else:
+            construct.check_nd(rec, h, rows, wts, op="h(dtype=)", requested_bins=None, detail=desc)
+        if float(h.missed) < 0:
+            rec.fail(monitor="C02.h.post", op="h(dtype=)", symptom="negative missed weight from non-negative weights", diff=["missed"], detail={**desc, "missed": float(h.missed)})
+    rec.case(desc, True, cls=f"dtype/{dt}/{wkind}/{'fits' if fits else 'too_big'}/{np.dtype(h.dtype)}")
+
+
 def run(ctx):
+    ctx.run_cases(ctx.scale(150, 1000), dtype_case, salt="dtype")
     attach_monitors()
     ctx.run_cases(ctx.scale(500, 4000), one_case)
